@@ -134,7 +134,7 @@ static void build_ops(void)
 		c.cmd = XC_AT; c.reg = 2; add_op(c, af[i].red && i < 8);
 		c.reg = 0;
 		c.cmd = XC_FILT; c.arg = "tr o 0"; add_op(c, af[i].red && i < 8);
-		c.cmd = XC_FILT; c.arg = "true"; add_op(c, 0);
+		c.cmd = XC_FILT; c.arg = "sed d"; add_op(c, 0);
 		c.arg = NULL;
 	}
 	{
@@ -381,6 +381,9 @@ int main(int argc, char **argv)
 	int bi, cur, ma, d2;
 	nv_init(argc, argv);
 	nx_init(argc, argv, 1, 0);
+	/* a filter that exits before it has read its input would kill the editor with SIGPIPE depending on
+	 * timing (see C05); the filters used here read all of it, and the signal is ignored to be safe */
+	signal(SIGPIPE, SIG_IGN);
 	nx_pre_state = pre_state;
 	nx_shard_level = -1;	/* configurations are distributed over the shards */
 	nx_trace_every = atoi(nv_arg(argc, argv, "trace", nv_thorough ? "1499" : "127"));
